@@ -63,7 +63,8 @@ def charnock_case(draw):
              else draw(st.one_of(log_uniform(0.1, 80.0), log_uniform(0.1, 80.0), st.sampled_from([0.1, 80.0]), fl(60.0, 80.0)))
              for _ in range(n)]
     return {"form": form, "U": U, "alpha": draw(st.one_of(st.just(0.012), fl(0.005, 0.04))),
-            "visc": draw(st.sampled_from([0.0, 0.0, 0.11])) if draw(st.booleans()) else draw(fl(0.0, 0.3))}
+            "visc": draw(st.sampled_from([0.0, 0.0, 0.11])) if draw(st.booleans()) else draw(fl(0.0, 0.3)),
+            "layout_2d": draw(st.sampled_from([None, None, "c_order", "transposed_view", "fortran"]))}
 
 
 def run_charnock(c):
@@ -71,7 +72,19 @@ def run_charnock(c):
     R = _rough()
     U = np.array(c["U"], dtype=float)
     form = c["form"]
-    if form == "scalar":
+    lay2 = c.get("layout_2d")
+    if lay2 and len(U) >= 4 and len(U) % 2 == 0:
+        # a two-dimensional field (time x station) stored transposed / in Fortran order: same values, same shape,
+        # another memory layout
+        U2 = U.reshape(2, -1)
+        if lay2 == "transposed_view":
+            arr = np.ascontiguousarray(U2.T).T
+        elif lay2 == "fortran":
+            arr = np.asfortranarray(U2)
+        else:
+            arr = U2.copy()
+        arg = xarray.DataArray(arr, dims=["station", "time"]) if form == "dataarray" else arr
+    elif form == "scalar":
         arg = float(U[0])
     elif form == "dataarray":
         arg = xarray.DataArray(U.copy(), dims=["time"])
@@ -114,6 +127,8 @@ def run_charnock(c):
         classes.append("has_nan")
     if c.get("long_record"):
         classes.append("long_record_over_1000_winds_in_one_call")
+    if lay2 and len(U) >= 4 and len(U) % 2 == 0:
+        classes.append("two_dimensional_input_" + lay2)
     return {"nontrivial": nontriv, "classes": classes}
 
 
